@@ -3,7 +3,7 @@ import c02 as base
 
 ID = "C03"
 PROPERTIES_V = ["theories/Properties/C03.v"]
-MAKE_TARGETS = ["theories/Properties/C03.vo", "theories/Model/C02Cases.vo"]
+MAKE_TARGETS = ["theories/Properties/C03.vo", "theories/Model/C02Cases.vo", "theories/Model/C20Cases.vo"]
 HARNESS = base.HARNESS
 CASES_IMPORTS = base.CASES_IMPORTS
 CASE_TYPE = base.CASE_TYPE
@@ -30,6 +30,12 @@ TRUSTED_EXTRA = base.TRUSTED_EXTRA + [
 coq_case = base.coq_case
 finding_key = base.finding_key
 distribution = base.distribution
+
+
+def extra_checks(chk):
+    """second part: the claim records the imported bridge exits are built from (see c03_claims.py)"""
+    import c03_claims
+    c03_claims.run_part(chk)
 
 
 def cases_n(tier):
